@@ -68,6 +68,7 @@ def templates(tier, seed=0):
     ts.append({'name': 'this-through-list', 'src': 'o := {"name": "O", "hs": [fn () {\n    return this.name\n}], "mk": fn () {\n    return [fn () {\n        return this.name\n    }]\n}}\nb := {"name": "B", "hs": o.mk()}\nprint(b.hs[0]())\nhs := b.hs\nprint(hs[0]())\nprint(o.mk()[0]())\nif @b0@ {\n    print(o.hs[0]())\n}\nif @b1@ {\n    l2 := o.hs\n    print(l2[0]())\n}\nprint(1)\n'})
     # the arguments are evaluated (once, left to right) before the count is checked
     ts.append({'name': 'arity-after-args', 'src': 'fn t(x) {\n    print(x)\n    return x\n}\nfn f(a, b) {\n    return a + b\n}\nfn r(a, ..more) {\n    return more\n}\nn := @h0@\nif n == 0 {\n    print(f(t(1), t(2), t(3)))\n} else if n == 1 {\n    print(f(t(4)))\n} else if n == 2 {\n    print(r())\n} else if n == 3 {\n    print(f(nope, 1, 2))\n} else if n == 4 {\n    o := {"m": f}\n    print(o.m(t(5), t(6), t(7)))\n}\nprint(9)\n', 'assume': lambda v: [v['h0'] >= 0, v['h0'] <= 5]})
+    ts.append({'name': 'this-in-slot-only', 'src': 'reg := {"name": "registry", "mk": fn () {\n    return {"name": "widget", "show": fn () {\n        return $"<${this.name}>"\n    }}\n}}\nw := reg.mk()\nprint(w.show())\ng := {"name": "gadget", "show": w.show}\nprint(g.show())\nprint(g["show"]())\nplain := fn () {\n    return $"${this.name}"\n}\nif @b0@ {\n    print(plain())\n}\nprint(1)\n'})
     ts.append({'name': 'callee-kinds', 'src': 'r := @h0@\nxs := [fn () {\n    return 1\n}]\no := {"f": fn (a) {\n    return a\n}}\n' + '\n'.join(ladder('r', ['print(xs[0]())', 'print(o.f(2))', 'print(o["f"](3))', 'print((fn () {\n    return 4\n})())', 'print(5())', 'print("s"())', 'print(o())', 'print(xs())', 'print(null())', 'print(o.f())', 'print(xs[0](1))', 'print(print(6))', 'print(print())', 'print(print(1, 2))'])) + '\nprint(9)\n',
                'assume': lambda v: [v['h0'] >= 0, v['h0'] <= 14]})
     return ts
